@@ -401,7 +401,7 @@ public:
     FastRational operator%(const FastRational& d) {
         assert(isInteger() && d.isInteger());
         if (wordPartValid() && d.wordPartValid()) {
-            uword w = absVal(num % d.num);  // Largest value is absVal(INT_MAX % INT_MIN) = INT_MAX
+            uword w = absVal(word(lword(num) % lword(d.num)));  // Largest value is absVal(INT_MAX % INT_MIN) = INT_MAX; computed in lword since INT_MIN % -1 overflows in word
             return (word)(d.num > 0 ? w : -w); // No overflow since 0 <= w <= INT_MAX
         }
         FastRational r = (*this) / d;
